@@ -122,7 +122,7 @@ inductive SkipCond where
 /-- typecheck.go `zeroConst` -/
 inductive ZeroMode where
   | untypedSign     -- `n.typ.untyped && constant.Sign(n.rval.Interface().(constant.Value)) == 0` (panics on non go/constant values)
-  | numericConst    -- a valid value of numeric type: `constant.Sign == 0`, or non-settable and `IsZero()` (03fb34b, 4bcc5b4)
+  | numericConst    -- a valid value of numeric type: `constant.Sign == 0`, or non-settable and `IsZero()` (03fb34b, 6f2f5cf)
   | other (s : String)
   deriving DecidableEq, Repr, Inhabited
 
@@ -130,7 +130,7 @@ inductive ZeroMode where
 inductive RecvMode where
   | legacy     -- received in place of the destination: `var v T = <-c` gives v the element type, `v = <-c` is not checked
   | guarded    -- 3e34c55: the in-place shortcut is skipped when the types differ; `v = <-c` treated as the other unary operators
-  | plain      -- 177a151: no shortcut, the received value is stored in its own slot and assigned like any other value
+  | plain      -- 212dc2e: no shortcut, the received value is stored in its own slot and assigned like any other value
   | other (s : String)
   deriving DecidableEq, Repr, Inhabited
 
@@ -184,7 +184,7 @@ structure TcFacts where
   callValueChecked : Bool
   /-- typecheck.go conversion: a typed constant converted to a numeric type must be representable
       (`c == nil && n.rval.IsValid() && isNumber(typ.TypeOf())` → `check.representable`, which reads plain Go
-      values through `constValue`) (7402c20) -/
+      values through `constValue`) (e6c1f4a) -/
   convTypedConstChecked : Bool
   /-- typecheck.go arrayLitExpr: the bounds test of a positional element -/
   arrayLitBound : ArrLitIdx
@@ -508,7 +508,7 @@ def arithY (T : TcFacts) (op : BinOp) (assignForm : Bool) (z : Option Ty) (x y :
     if !assignForm || T.opAssignZeroChecked then
       -- since 03fb34b a floating-point or complex variable may be divided by a constant zero
       if (← zeroConstY T y) && (!T.quoFloatZeroOk || x.rv.valid || isIntT F x.ty) then .err
-      -- (until 4bcc5b4 a constant quotient left here; constant operands never reach this rule: `binY`)
+      -- (until 6f2f5cf a constant quotient left here; constant operands never reach this rule: `binY`)
   | _ => pure ()
   -- `_ = check.convertUntyped(c0, c1.typ)`: the error is dropped, a Go panic is not
   let x' ← (match convertUntypedY F x y.ty with | .err => Res.ok x | r => r)
@@ -604,7 +604,7 @@ def convY (T : TcFacts) (typ : Ty) (x : Opnd) : Res Opnd := do
   let F := T.ops
   if typ.isUntyped then .err
   let c : Option CVal := match x.rv with | .const c => some c | _ => none
-  -- 7402c20: the conversion of a typed constant to a numeric type is a constant conversion: `representable` on the
+  -- e6c1f4a: the conversion of a typed constant to a numeric type is a constant conversion: `representable` on the
   -- plain Go value. A typed constant without an integer value (`RVal.typed none`) of a floating-point type has a
   -- fractional part; of a string or boolean type it is not a number (rejected here, and by `convertibleTo` anyway)
   if T.convTypedConstChecked && isNumberT F typ then
@@ -722,7 +722,7 @@ def assignY (T : TcFacts) (decl : Bool) (sh : Shape) (dst : Ty) (x : Opnd) : Res
   | .recv =>
     -- "assign by reading from a receiving channel": `dest.typ = src.typ`, the variable took the element type;
     -- since 3e34c55 the shortcut is skipped when the two types differ, and `v = <-c` is treated as the other
-    -- unary operators are; since 177a151 there is no shortcut at all: a receive is assigned like any other value
+    -- unary operators are; since 212dc2e there is no shortcut at all: a receive is assigned like any other value
     if decl then
       (match T.recvDecl with
        | .legacy => do assignmentY T.ops x dst; .ok x.ty
